@@ -164,12 +164,13 @@ def history(M, rec, rng, g, desc):
     # intermediate operations on the same objects
     hist = []
     last_kind = first_engine  # what kind of variables the elements currently hold
-    kind_after = {"np_other_values": "numpy", "np_other_options": "numpy", "sx": "SX", "mx": "MX", "own_vars": "numpy",
+    kind_after = {"np_same_state_other_controls": "numpy", "np_other_values": "numpy", "np_other_options": "numpy", "sx": "SX", "mx": "MX", "own_vars": "numpy",
                   "same_arrays_again": "numpy", "refresh_in_place": "numpy", "elements_other_values": first_engine,
                   "elements_partial_init": first_engine}
     for _ in range(rng.randint(2, 7)):
         op = rng.choice(("np_other_values", "np_other_options", "sx", "mx", "compile", "own_vars", "same_arrays_again",
-                         "refresh_in_place", "refresh_in_place", "elements_other_values", "elements_partial_init"))
+                         "refresh_in_place", "refresh_in_place", "elements_other_values", "elements_partial_init",
+                         "np_same_state_other_controls", "np_same_state_other_controls"))
         hist.append(op)
         last_kind_before = last_kind
         try:
@@ -179,6 +180,22 @@ def history(M, rec, rng, g, desc):
                                        "positive_next_density", "positive_next_queue") if rng.random() < (0.6 if op.endswith("options") else 0.0)}
                 ic = drive.np_init(built, v, rng.choice(("vec1", "0d", "float")), readonly=True)
                 guarded_step(rec, built, ic, NE(), drive.step_pars(g.pars()), o, "numpy", dict(ctx, intermediate=op))
+            elif op == "np_same_state_other_controls":
+                # candidate controls compared from ONE traffic state (a one-step look-ahead controller): the
+                # very same densities / speeds / queues, other (tighter or looser) limits, rates and flows
+                import math as _m
+
+                v = {k_: {n_: (list(x_) if isinstance(x_, list) else x_) for n_, x_ in d_.items()} for k_, d_ in vals0.items()}
+                f_ = rng.choice((0.25, 0.5, 0.8, 1.5))
+                for eid_, d_ in v.items():
+                    for n_ in ("v_ctrl", "r", "q"):
+                        if n_ in d_:
+                            if isinstance(d_[n_], list):
+                                d_[n_] = [(30.0 * f_ if _m.isinf(x_) else x_ * f_) for x_ in d_[n_]]
+                            else:
+                                d_[n_] = min(1.0, d_[n_] * f_) if n_ == "r" else (30.0 * f_ if _m.isinf(d_[n_]) else d_[n_] * f_)
+                ic = drive.np_init(built, v, "vec1", readonly=True)
+                guarded_step(rec, built, ic, rng.choice((eng_np, NE())), kw, opts0, "numpy", dict(ctx, intermediate=op))
             elif op in ("elements_other_values", "elements_partial_init"):
                 # a per-element loop with the history's own engine object and other values; in the partial
                 # form only the links are given new values, the other elements keep what they hold
